@@ -985,6 +985,47 @@ func (env *rEnv) call(n *rNode) Value {
 			}
 			return sym(IntLit(int64(c)))
 		}
+	case "onecritical":
+		// onecritical("kindA", "kindB", "lock"): the last event of kind A before the first event of kind B, and that
+		// event of kind B, both happen while a lock whose name contains the text is held, and that lock is not released
+		// in between (one critical section). False if either event is missing.
+		if n.Args[0].Op == "str" && n.Args[1].Op == "str" && n.Args[2].Op == "str" {
+			tr := env.post.trace
+			bi := -1
+			for i, ev := range tr {
+				if ev.Kind == n.Args[1].Text {
+					bi = i
+					break
+				}
+			}
+			ai := -1
+			for i := bi - 1; i >= 0; i-- {
+				if tr[i].Kind == n.Args[0].Text {
+					ai = i
+					break
+				}
+			}
+			if ai < 0 || bi < 0 {
+				return sym(TFalse)
+			}
+			holds := func(ev TraceEv) bool {
+				for _, h := range ev.Locks {
+					if strings.Contains(h, n.Args[2].Text) {
+						return true
+					}
+				}
+				return false
+			}
+			if !holds(tr[ai]) || !holds(tr[bi]) {
+				return sym(TFalse)
+			}
+			for i := ai + 1; i < bi; i++ {
+				if tr[i].Kind == "unlock" && strings.Contains(tr[i].Text, n.Args[2].Text) {
+					return sym(TFalse)
+				}
+			}
+			return sym(TTrue)
+		}
 	case "lockedunder":
 		// lockedunder("inner", "outer"): on this path some lock whose name contains `inner` was acquired while a lock
 		// whose name contains `outer` was held
